@@ -64,7 +64,11 @@ Apply(m0, e) ==
            [] e.ev \in {"Open", "Close"} ->
                   [m EXCEPT !.up = FALSE, !.sp = FALSE,
                             !.ops = MapAll(@, LAMBDA o : [o EXCEPT !.txConn = 0, !.relConn = 0, !.recConn = 0, !.credit = 0])]
-           [] e.ev = "Complete" /\ Has(m.ops, e.op) -> [m EXCEPT !.ops[e.op].done = TRUE, !.ops[e.op].doneNow = TRUE]
+           \* "once a PUBREC has been received ... a PUBREL with that identifier is sent until PUBCOMP": a QoS 2 publish whose PUBREC
+           \* did not fail is not finished successfully by anything but its PUBCOMP
+           [] e.ev = "Complete" /\ Has(m.ops, e.op) ->
+                  IF e.ok = 1 /\ m.ops[e.op].pubrec /\ e.ack # "PUBCOMP" THEN Breach(m, e, "complete-without-pubcomp")
+                  ELSE [m EXCEPT !.ops[e.op].done = TRUE, !.ops[e.op].doneNow = TRUE]
            [] e.ev = "Reset" -> [m EXCEPT !.ops = MapAll(@, LAMBDA o : [o EXCEPT !.done = TRUE]), !.owner = EmptyMap, !.up = FALSE]
            [] e.ev = "Quiesce" /\ e.state = "Connected" /\ e.responsive = 1 ->
                   IF \E k \in DOMAIN m.ops : m.ops[k].pubrec /\ ~m.ops[k].done /\ m.ops[k].relConn = 0
